@@ -48,8 +48,15 @@ def shapes(drv, w, rest):
 
 # ------------------------------------------------------------------ the larger random family (implementation only)
 def live_tables():
+    """The integer suffixes come from the suffix GRAMMAR of the property text (the same as Spec/CConst.spec_int_suffixes),
+    not from the tool's table: a spelling dropped from the table must still be generated.  Float suffixes: the
+    tool's table (its extensions: imaginary, decimal) plus the grammar's f F l L d D."""
     import norminette.lexer.lexer as LX
-    return list(LX.integer_suffixes), list(LX.float_suffixes)
+    us = ["u", "U"]
+    ws = ["l", "L", "ll", "LL", "z", "Z", "wb", "WB", "i64", "I64"]
+    isuf = [""] + us + ws + [u + w for u in us for w in ws] + [w + u for w in ws for u in us]
+    fsuf = sorted(set(list(LX.float_suffixes) + ["", "f", "F", "l", "L", "d", "D"]))
+    return isuf, fsuf
 
 
 def rand_digits(rnd, alpha, lo, hi):
